@@ -402,6 +402,25 @@ pub fn from_ref(m: &RefMsg) -> Message<'static> {
     }
 }
 
+/// The same message with its data BORROWED from `m` (the library keeps chunk data in a `Cow`: owned when it comes off the
+/// wire, borrowed when the controller sends slices of a page — both must be treated alike).
+pub fn from_ref_borrowed(m: &RefMsg) -> Message<'_> {
+    match m {
+        RefMsg::Data { offset, data } => Message::SendData(Offset(*offset), Data::try_new(&data[..]).expect("<=255")),
+        RefMsg::Unknown { addr, ty, data } => Message::Unknown(Frame::new(Address(*addr), MsgType(*ty), Data::try_new(&data[..]).expect("<=255"))),
+        other => from_ref(other),
+    }
+}
+
+/// Owned or borrowed data, decided by the message itself (so that a replayed history makes the same choice).
+pub fn from_ref_either(m: &RefMsg) -> Message<'_> {
+    match m {
+        RefMsg::Data { offset, data } if (usize::from(*offset) / 16 + data.len()) % 2 == 1 => from_ref_borrowed(m),
+        RefMsg::Unknown { data, .. } if data.len() % 2 == 1 => from_ref_borrowed(m),
+        _ => from_ref(m),
+    }
+}
+
 pub fn show_opt(m: &Option<RefMsg>) -> String {
     match m {
         Some(m) => m.show(),
